@@ -3,7 +3,9 @@ import PermutaModel.Lemmas.C12SSMain
 import PermutaModel.Lemmas.C12Families
 import PermutaModel.Lemmas.C12Pop
 import PermutaModel.Lemmas.C12Quick
+import PermutaModel.Lemmas.C12Textbook
 import PermutaModel.Props.C01
+import PermutaModel.Lemmas.C12Char
 
 /-!
 # C12 — sorting operators, the Simion–Schmidt map and named families
@@ -333,6 +335,73 @@ theorem mesh_families_unfold (σ : NSeq) :
   rw [family_tables.2.1, family_tables.2.2.1, family_tables.2.2.2.1]
   simp [Model.avoidsSrc, Model.containsSrc]
 
+/-! ## A5 (continued)  the mesh patterns of the source characterise the textbook definitions
+
+`Spec.IsSimsun`, `Spec.IsBaxter`, `Spec.IsForestLike` (`Spec/C12Families.lean`) are stated on entries
+and positions only; the theorems hold for every permutation, of any length. -/
+
+/-- **simsun**: `perm_properties.simsun` (avoidance of the mesh pattern `(210, {(1,0),(1,1),(2,2)})`)
+    holds exactly when no restriction of the permutation to the values `{0,…,k-1}`, `k ≤ n`, has a
+    double descent (three consecutive, strictly decreasing entries) -/
+theorem simsun_iff_double_descent (σ : NSeq) (h : IsPerm σ) :
+    Model.simsun σ = true ↔ Spec.IsSimsun σ := by
+  rw [(mesh_families_unfold σ).2.2, Bool.not_eq_true', ← Bool.not_eq_true,
+    C03.containsMesh_iff σ _ (by decide) h, meshContains_simsun_iff σ h]
+  unfold Spec.IsSimsun
+  constructor
+  · intro hno k hk hdd; exact hno ⟨k, hk, hdd⟩
+  · rintro hall ⟨k, hk, hdd⟩; exact hall k hk hdd
+
+/-- non-vacuity: `23140` has no double descent itself, but its restriction `210` to the values
+    `< 3` has one; the model agrees through the theorem -/
+example : IsPerm [2, 3, 1, 4, 0] ∧ ¬ Spec.HasDoubleDescent [2, 3, 1, 4, 0] ∧ ¬ Spec.IsSimsun [2, 3, 1, 4, 0] ∧
+    Model.simsun [2, 3, 1, 4, 0] = false ∧ Spec.IsSimsun [2, 0, 1, 3] ∧ Model.simsun [2, 0, 1, 3] = true := by
+  refine ⟨by decide, by decide, by decide, ?_, by decide, ?_⟩
+  · rw [← Bool.not_eq_true, simsun_iff_double_descent _ (by decide)]; decide
+  · rw [simsun_iff_double_descent _ (by decide)]; decide
+
+/-- **Baxter**: `perm_properties.baxter` (avoidance of the mesh patterns `(1302, {(2,2)})` and
+    `(2031, {(2,2)})`) holds exactly when there are no positions `i < j < j+1 < k` with
+    `σ[j+1] < σ[i] < σ[k] < σ[j]` (2-41-3) or `σ[j] < σ[k] < σ[i] < σ[j+1]` (3-14-2) -/
+theorem baxter_iff_vincular (σ : NSeq) (h : IsPerm σ) :
+    Model.baxter σ = true ↔ Spec.IsBaxter σ := by
+  rw [(mesh_families_unfold σ).2.1]
+  simp only [Bool.and_eq_true, Bool.not_eq_true', ← Bool.not_eq_true]
+  rw [C03.containsMesh_iff σ _ (by decide) h, C03.containsMesh_iff σ _ (by decide) h,
+    meshContains_1302_iff σ h, meshContains_2031_iff σ h]
+  rfl
+
+/-- non-vacuity: `14203` contains 2413 classically (as `1403`) yet is Baxter – the `2` sits in the
+    box; `1302` and `2031` themselves are not Baxter -/
+example : IsPerm [1, 4, 2, 0, 3] ∧ Contains [1, 4, 2, 0, 3] [1, 3, 0, 2] ∧ Spec.IsBaxter [1, 4, 2, 0, 3] ∧
+    Model.baxter [1, 4, 2, 0, 3] = true ∧ ¬ Spec.IsBaxter [1, 3, 0, 2] ∧ ¬ Spec.IsBaxter [2, 0, 3, 1] := by
+  refine ⟨by decide, ⟨[0, 1, 3, 4], (isOcc_1302 _ _).mpr ⟨0, 1, 3, 4, rfl, by decide⟩⟩, by decide, ?_,
+    by decide, by decide⟩
+  rw [baxter_iff_vincular _ (by decide)]; decide
+
+/-- **forest-like**: `perm_properties.forest_like` (avoidance of `0213` and of the mesh pattern
+    `(1032, {(2,2)})`) holds exactly when the permutation avoids 1324 and every occurrence
+    `a < b < c < d` of 2143 has an entry positioned between `b` and `c` with a value between
+    `σ[a]` and `σ[d]`, i.e. it avoids the barred pattern 21\bar{3}54 -/
+theorem forestLike_iff_barred (σ : NSeq) (h : IsPerm σ) :
+    Model.forestLike σ = true ↔ Spec.IsForestLike σ := by
+  rw [(mesh_families_unfold σ).1]
+  simp only [Bool.and_eq_true, Bool.not_eq_true', ← Bool.not_eq_true]
+  rw [C01.containsOne_iff σ _ (by decide) h, C03.containsMesh_iff σ _ (by decide) h,
+    contains_0213_iff, not_meshContains_1032_iff σ h]
+  rfl
+
+/-- non-vacuity: `10243` contains 2143 but is forest-like (the `2` completes 21354);
+    `1032` and `0213` are not -/
+example : IsPerm [1, 0, 2, 4, 3] ∧ Spec.IsForestLike [1, 0, 2, 4, 3] ∧ Model.forestLike [1, 0, 2, 4, 3] = true ∧
+    Model.smooth [1, 0, 2, 4, 3] = false ∧ ¬ Spec.IsForestLike [1, 0, 3, 2] ∧ ¬ Spec.IsForestLike [0, 2, 1, 3] := by
+  refine ⟨by decide, by decide, ?_, ?_, by decide, by decide⟩
+  · rw [forestLike_iff_barred _ (by decide)]; decide
+  · rw [← Bool.not_eq_true, smooth_iff_avoids _ (by decide)]
+    intro hh
+    exact hh.2 ⟨[0, 1, 3, 4], (isOcc_1032 _ _).mpr ⟨0, 1, 3, 4, rfl, by decide⟩⟩
+
+
 /-- `dihedral_group(n)` yields exactly the `2n` symmetries of the regular `n`-gon when `n ≥ 3`
     and nothing for `n ≤ 2` -/
 theorem dihedralGroup_iff (n : Nat) (σ : NSeq) :
@@ -368,5 +437,155 @@ theorem inAlternatingGroup_small (σ : NSeq) (h : σ.length < 3) :
     (`KNOWN_FINDINGS.json` C12-alternating-n2) -/
 theorem inAlternatingGroup_identity2_partial :
     Spec.IsEven [0, 1] ∧ Model.inAlternatingGroup [0, 1] = false := by decide
+
+-- ===== pv12b: West-2 / quicksort characterisations =====
+
+/-! ## B1  West: two passes through a stack -/
+/-- **decomposition around the maximum**: with `m` above everything in `L` and at least everything in `R`,
+    one pass of `_stack_sort` on `L m R` is the pass on `L`, then the pass on `R`, then `m` -/
+theorem stackSort_max_decomp (L R : List Nat) (m : Nat) (hL : ∀ x ∈ L, x < m) (hR : ∀ x ∈ R, x ≤ m) :
+    Model.stackSort (L ++ m :: R) = Model.stackSort L ++ Model.stackSort R ++ [m] := by
+  rw [stackSort_eq_stackPass, stackSort_eq_stackPass, stackSort_eq_stackPass]
+  exact stackPass_split L R m hL hR
+
+example : Model.stackSort ([1, 2, 0] ++ 4 :: [3]) = [1, 0, 2] ++ [3] ++ [4] := by
+  rw [stackSort_max_decomp _ _ _ (by decide) (by decide), stackSort_eq_device, stackSort_eq_device]; decide
+
+/-- **order of two entries after one pass** (every duplicate-free word): the larger entry `x` is output
+    before the smaller entry `y` exactly when `x` stands before `y` in the input and some entry larger
+    than `x` stands between them (`[x, z, y] <+ σ` = "`x`, `z`, `y` occur in `σ` in this order") -/
+theorem stackSort_order_iff (σ : List Nat) (hnd : σ.Nodup) (x y : Nat) (hxy : y < x) :
+    List.Sublist [x, y] (Model.stackSort σ) ↔ ∃ z, x < z ∧ List.Sublist [x, z, y] σ :=
+  stackSort_inv_iff σ hnd x y hxy
+
+example : List.Sublist [2, 1] (Model.stackSort [2, 3, 1, 0]) ∧ ¬ List.Sublist [1, 0] (Model.stackSort [2, 3, 1, 0]) := by
+  rw [stackSort_eq_device]; decide
+
+/-- **West's lemma**: the output of one pass through the stack contains 231 exactly when the input
+    contains 2341 or the mesh pattern `(3241, {(1,4)})` (the barred pattern 3\bar{5}241) -/
+theorem stackSort_contains_231_iff (σ : NSeq) (h : IsPerm σ) :
+    Contains (Model.stackSort σ) [1, 2, 0] ↔
+      Contains σ [1, 2, 3, 0] ∨ MeshContains σ ⟨[2, 1, 3, 0], [(1, 4)]⟩ := by
+  rw [contains_231_iff, has231_stackSort_iff σ h.1, contains_2341_iff, meshContains_3241_iff σ h.1]
+
+/-- non-vacuity of the right-hand side: 3241 itself is an occurrence of the mesh pattern, in 35241 the
+    classical occurrence of 3241 is there but the 5 sits in the shaded cell -/
+example : MeshContains [2, 1, 3, 0] ⟨[2, 1, 3, 0], [(1, 4)]⟩ ∧
+    ¬ MeshContains [2, 4, 1, 3, 0] ⟨[2, 1, 3, 0], [(1, 4)]⟩ ∧ Contains [2, 4, 1, 3, 0] [2, 1, 3, 0] := by
+  refine ⟨?_, ?_, ⟨[0, 2, 3, 4], (C01.mem_spec_iff _ _ _).mp (by decide)⟩⟩ <;>
+    simp only [C03.meshContains_iff_spec] <;> decide
+
+/-- **West (1990)**: a permutation is sorted by two passes through a stack (`west_2_stack_sortable`)
+    iff it avoids 2341 classically and avoids the mesh pattern `(3241, {(1,4)})`, i.e. every occurrence
+    of 3241 is part of an occurrence of 35241 -/
+theorem west2_iff_avoids (σ : NSeq) (h : IsPerm σ) :
+    Model.west2 σ = true ↔
+      ¬ Contains σ [1, 2, 3, 0] ∧ ¬ MeshContains σ ⟨[2, 1, 3, 0], [(1, 4)]⟩ := by
+  have e : Model.west2 σ = Model.stackSortable (Model.stackSort σ) := rfl
+  rw [e, stackSortable_iff_avoids_231 _ (isPerm_stackSort h), stackSort_contains_231_iff σ h, not_or]
+
+/-- the same about the device and the identity: two passes through a stack give `0 1 … n-1` iff … -/
+theorem stackPass_twice_identity_iff_avoids (σ : NSeq) (h : IsPerm σ) :
+    Spec.stackPass (Spec.stackPass σ) = Model.identity σ.length ↔
+      ¬ Contains σ [1, 2, 3, 0] ∧ ¬ MeshContains σ ⟨[2, 1, 3, 0], [(1, 4)]⟩ := by
+  rw [← west2_iff_avoids σ h]
+  unfold Model.west2 Model.identity
+  rw [isIncreasing_iff, stackSort_length, stackSort_length, stackSort_eq_stackPass, stackSort_eq_stackPass]
+
+/-- the same with the code's own avoidance test:
+    `p.west_2_stack_sortable() == p.avoids(Perm((1,2,3,0)), MeshPatt(Perm((2,1,3,0)), [(1,4)]))` -/
+theorem west2_eq_avoids (σ : NSeq) (h : IsPerm σ) :
+    Model.west2 σ = Model.avoidsSrc σ [([1, 2, 3, 0], none), ([2, 1, 3, 0], some [(1, 4)])] := by
+  rw [Bool.eq_iff_iff, west2_iff_avoids σ h]
+  simp only [Model.avoidsSrc, Model.containsSrc, List.all_cons, List.all_nil, Bool.and_true,
+    Bool.and_eq_true, Bool.not_eq_true', ← Bool.not_eq_true]
+  rw [C01.containsOne_iff σ _ (by decide) h,
+    C03.containsMesh_iff σ ⟨[2, 1, 3, 0], [(1, 4)]⟩ (by decide) h]
+
+/-- non-vacuity: 2341 and 3241 are not West-2-stack-sortable, 35241 is (its 3241 is covered by the 5),
+    25341 (the 5 not between the 3 and the 2) is not -/
+example : IsPerm [2, 4, 1, 3, 0] ∧ Model.west2 [2, 4, 1, 3, 0] = true ∧ Model.west2 [1, 2, 3, 0] = false ∧
+    Model.west2 [2, 1, 3, 0] = false ∧ Model.west2 [1, 4, 2, 3, 0] = false := by
+  refine ⟨by decide, ?_, ?_, ?_, ?_⟩ <;>
+    simp only [Model.west2, stackSort_eq_device] <;> decide
+
+
+/-! ## B2  quicksort: one pass of the operator -/
+
+/-- the recursion of the quicksort operator on every word: at the rightmost strong fixed point `m`
+    (everything before it smaller, everything after it larger) the word is cut and both sides are
+    treated separately -/
+theorem quickPass_strongFix_decomp (l : List Nat) (m : Nat) (h : Spec.lastStrongFix l = some m) :
+    Spec.quickPass l = Spec.quickPass (l.take m) ++ [l.getD m 0] ++ Spec.quickPass (l.drop (m + 1)) :=
+  quickPass_some h
+
+/-- … and a word `f :: t` without strong fixed point is partitioned around its first entry -/
+theorem quickPass_pivot (f : Nat) (t : List Nat) (h : Spec.lastStrongFix (f :: t) = none) :
+    Spec.quickPass (f :: t) = (f :: t).filter (· < f) ++ [f] ++ (f :: t).filter (f < ·) :=
+  quickPass_none h
+
+example : Spec.lastStrongFix [1, 0, 2, 4, 3] = some 2 ∧ Spec.lastStrongFix [2, 0, 3, 1] = none := by decide
+
+/-- one pass of the quicksort operator leaves a permutation increasing iff it has no 321, no 2413 and
+    no 2143 whose middle box (positions between the 1 and the 4, values between the 2 and the 3) is
+    empty -/
+theorem quickPass_sorted_iff_avoids (σ : NSeq) (h : IsPerm σ) :
+    (Spec.quickPass σ).Pairwise (· < ·) ↔
+      ¬ Contains σ [2, 1, 0] ∧ ¬ Contains σ [1, 3, 0, 2] ∧ ¬ MeshContains σ ⟨[1, 0, 3, 2], [(2, 2)]⟩ := by
+  rw [quickPass_sorted_iff σ h.1, contains_321_iff', contains_2413_iff, meshContains_2143_iff σ h.1]
+  unfold BadQ
+  rw [not_or, not_or]
+
+/-- non-vacuity of the right-hand side: 2143 is an occurrence of the mesh pattern, in 21354 the 3 sits
+    in the shaded cell -/
+example : MeshContains [1, 0, 3, 2] ⟨[1, 0, 3, 2], [(2, 2)]⟩ ∧
+    ¬ MeshContains [1, 0, 2, 4, 3] ⟨[1, 0, 3, 2], [(2, 2)]⟩ ∧ Contains [1, 0, 2, 4, 3] [1, 0, 3, 2] := by
+  refine ⟨?_, ?_, ⟨[0, 1, 3, 4], (C01.mem_spec_iff _ _ _).mp (by decide)⟩⟩ <;>
+    simp only [C03.meshContains_iff_spec] <;> decide
+
+/-- **Claesson–Úlfarsson**: `quick_sortable` answers on every permutation, and holds iff the permutation
+    avoids 321, 2413 and the mesh pattern `(2143, {(2,2)})` (the barred pattern 21\bar{3}54; the second
+    pattern of `_FOREST_LIKE_PATT`) -/
+theorem quickSortable_iff_avoids (σ : NSeq) (h : IsPerm σ) :
+    ∃ b, Model.quickSortableE σ = .ok b ∧
+      (b = true ↔ ¬ Contains σ [2, 1, 0] ∧ ¬ Contains σ [1, 3, 0, 2] ∧
+        ¬ MeshContains σ ⟨[1, 0, 3, 2], [(2, 2)]⟩) := by
+  refine ⟨Model.isIncreasing (Model.quickSort σ), ?_, ?_⟩
+  · unfold Model.quickSortableE; simp [quickAsserts_perm σ.length σ rfl h]
+  · rw [isIncreasing_iff_sorted (isPerm_of_perm (quickSort_perm σ h.1) h), quickSort_eq_quickPass σ h,
+      quickPass_sorted_iff_avoids σ h]
+
+/-- the same about the device and the identity -/
+theorem quickPass_identity_iff_avoids (σ : NSeq) (h : IsPerm σ) :
+    Spec.quickPass σ = Model.identity σ.length ↔
+      ¬ Contains σ [2, 1, 0] ∧ ¬ Contains σ [1, 3, 0, 2] ∧ ¬ MeshContains σ ⟨[1, 0, 3, 2], [(2, 2)]⟩ := by
+  obtain ⟨b, h1, h2⟩ := quickSortable_iff_identity σ h
+  obtain ⟨b', h1', h2'⟩ := quickSortable_iff_avoids σ h
+  rw [h1] at h1'; cases h1'
+  rw [← h2, h2']
+
+/-- the same with the code's own avoidance test: `p.quick_sortable() ==
+    p.avoids(Perm((2,1,0)), Perm((1,3,0,2)), MeshPatt(Perm((1,0,3,2)), [(2,2)]))` -/
+theorem quickSortable_eq_avoids (σ : NSeq) (h : IsPerm σ) :
+    Model.quickSortableE σ =
+      .ok (Model.avoidsSrc σ [([2, 1, 0], none), ([1, 3, 0, 2], none), ([1, 0, 3, 2], some [(2, 2)])]) := by
+  obtain ⟨b, h1, h2⟩ := quickSortable_iff_avoids σ h
+  rw [h1]; congr 1
+  rw [Bool.eq_iff_iff, h2]
+  simp only [Model.avoidsSrc, Model.containsSrc, List.all_cons, List.all_nil, Bool.and_true,
+    Bool.and_eq_true, Bool.not_eq_true', ← Bool.not_eq_true]
+  rw [C01.containsOne_iff σ _ (by decide) h, C01.containsOne_iff σ _ (by decide) h,
+    C03.containsMesh_iff σ ⟨[1, 0, 3, 2], [(2, 2)]⟩ (by decide) h]
+
+/-- the mesh pattern is the one the source already uses for `forest_like` -/
+theorem quick_mesh_is_forest_like_patt :
+    (Model.familyPatts "forest_like").getD 1 ([], none) = ([1, 0, 3, 2], some [(2, 2)]) := by decide
+
+/-- non-vacuity: 21354 is quick-sortable (the 3 is a strong fixed point), 2143, 321 and 2413 are not -/
+example : IsPerm [1, 0, 2, 4, 3] ∧ Spec.quickPass [1, 0, 2, 4, 3] = Model.identity 5 ∧
+    Spec.quickPass [1, 0, 3, 2] ≠ Model.identity 4 ∧ Spec.quickPass [2, 1, 0] ≠ Model.identity 3 ∧
+    Spec.quickPass [1, 3, 0, 2] ≠ Model.identity 4 := by decide
+
+-- ===== pv12b: end =====
 
 end C12
